@@ -207,6 +207,20 @@ func H_C23_tombstoned() {
 	for _, e := range rl.Repos {
 		verifrt.Assert(visible(int(e.Repository.ID)-1), "only live repositories of the requesting tenant are listed")
 	}
+	rm, err := d.List(ctx, verifC23Query(k), &zoekt.ListOptions{Field: zoekt.RepoListFieldReposMap})
+	verifrt.Assert(err == nil, "list (map) succeeds")
+	for id := range rm.ReposMap {
+		verifrt.Assert(visible(int(id)-1), "only live repositories of the requesting tenant are listed (map)")
+	}
+	if k == 0 {
+		n := 0
+		for i := 0; i < 3; i++ {
+			if visible(i) {
+				n++
+			}
+		}
+		verifrt.Assert(len(rl.Repos) == n && len(rm.ReposMap) == n, "a tenant still lists all of its live repositories")
+	}
 	verifrt.Reach("returned")
 }
 
